@@ -105,6 +105,14 @@ CHECKS = {
             "isinstance of the library's own type objects is the specification for non-Literal types (statement); multi-match "
             "cases accept any containing method or the ambiguity error.",
             "DESIGN.md §4 C11"),
+    "C15": ("exploration",
+            "runtime metamorphic monitor: outcome vectors of the same program under every equivalent spelling of one annotation (and all at once)",
+            "One annotation of a generated program is rewritten in each equivalent form the statement lists (Union spellings and "
+            "member orders, Optional forms, missing/Any/object, Annotated, string, typing.List-style generics, Literal value "
+            "orders); the vector of outcomes over a value corpus must not change.",
+            "Same method set on both sides, order pinned. Differences in programs whose registered types are compared "
+            "asymmetrically or cyclically by the real order relation are the known finding F8.",
+            "DESIGN.md §4 C15"),
     "C12": ("exploration",
             "runtime law monitor on typeorder: mirror symmetry, reflexivity, issubclass agreement and transitivity, generic and member laws, on generated closures and online on every pair the library compares during dispatch",
             "All ordered pairs of a bounded-depth closure (built twice) are checked against the algebraic laws the statement "
